@@ -118,7 +118,10 @@ def reference(name, m, t, no_prss, seed, mode, victim):
     async def prog(mpc):
         await body(mpc, net.outlog[mpc.pid].append)
         return True
-    net.run(prog)
+    try:
+        net.run(prog)
+    except (Deadlock, PartyError) as exc:
+        return None, str(exc)[:300], 0
     return [list(l_) for l_ in net.outlog], marks, tot[0]
 
 
@@ -153,6 +156,10 @@ def run(ctx):
                 seed = rng.randrange(10**9)
                 mode = rng.choice(['random', 'lazynet', 'eagernet'])
                 ref, marks, total = reference(name, m, t, no_prss, seed, mode, victim)
+                if ref is None:
+                    ctx.mismatch(f'crash-free reference run of {name} (m={m}, t={t}) does not complete: {marks}',
+                                 {'kind': 'reference', 'program': name, 'm': m, 't': t, 'no_prss': no_prss, 'seed': seed, 'mode': mode})
+                    continue
                 pts = crash_points(total, marks, ctx.thorough and m <= 3)
                 if not ctx.thorough and len(pts) > 60:
                     pts = sorted(rng.sample(pts, 60))
@@ -211,7 +218,10 @@ def search(ctx):
         victim = rng.randrange(m)
         seed = rng.randrange(10**9)
         mode = rng.choice(['random', 'lazynet', 'eagernet', 'starve'])
-        ref, marks, total = reference(name, m, t, no_prss, seed, mode, victim)
+        ref, marks, total = reference(name, m, t, no_prss, seed, 'fifo' if k % 2 else mode, victim)
+        if ref is None:
+            continue
+        mode = 'fifo' if k % 2 else mode
         K = rng.randrange(0, total + 1)
         eof = rng.random() < 0.5
         net, status, msg = check_case(name, m, t, no_prss, seed, mode, victim, K, eof, ref)
@@ -224,6 +234,8 @@ def search(ctx):
 def replay(ctx, data):
     ref, marks, total = reference(data['program'], data['m'], data['t'], data['no_prss'], data['seed'], data['mode'],
                                   data['victim'])
+    if ref is None:
+        return False, 'crash-free reference run does not complete: ' + str(marks)
     net, status, msg = check_case(data['program'], data['m'], data['t'], data['no_prss'], data['seed'], data['mode'],
                                   data['victim'], data['K'], data['eof'], ref)
     return msg is None, msg or 'ok'
